@@ -991,24 +991,37 @@ class _Unknown:
 
 
 def _module_level_names(mod):
-    names, star = set(), False
-    stack = list(mod.tree.body)
-    while stack:
-        st = stack.pop()
-        for x in ast.walk(st):
-            if isinstance(x, ast.Name) and isinstance(x.ctx, ast.Store):
-                names.add(x.id)
-            elif isinstance(x, (ast.FunctionDef, ast.AsyncFunctionDef, ast.ClassDef)):
-                names.add(x.name)
-            elif isinstance(x, (ast.Import, ast.ImportFrom)):
-                for al in x.names:
-                    if al.name == "*":
-                        star = True
-                    else:
-                        names.add((al.asname or al.name).split(".")[0])
-            elif isinstance(x, ast.Global):
-                names.update(x.names)
-    return names, star
+    """Names bound in the module's global scope (function and class bodies are other scopes) and whether a star import
+    makes the set open."""
+    names, star = set(), [False]
+
+    def walk(x):
+        if isinstance(x, (ast.FunctionDef, ast.AsyncFunctionDef, ast.ClassDef)):
+            names.add(x.name)
+            for d in x.decorator_list:
+                walk(d)
+            return
+        if isinstance(x, ast.Lambda) or isinstance(x, _COMPS):
+            return
+        if isinstance(x, ast.Name) and isinstance(x.ctx, ast.Store):
+            names.add(x.id)
+        elif isinstance(x, (ast.Import, ast.ImportFrom)):
+            for al in x.names:
+                if al.name == "*":
+                    star[0] = True
+                else:
+                    names.add((al.asname or al.name).split(".")[0])
+        elif isinstance(x, ast.ExceptHandler) and x.name:
+            names.add(x.name)
+        for c in ast.iter_child_nodes(x):
+            walk(c)
+    for st in mod.tree.body:
+        walk(st)
+    # names that functions publish with a `global` statement
+    for x in ast.walk(mod.tree):
+        if isinstance(x, ast.Global):
+            names.update(x.names)
+    return names, star[0]
 
 
 def _bound_before_marking(r, ga):
